@@ -18,6 +18,7 @@
      lines_transfer q                        CLines is legal at QBetween only and returns there
      site_transfer c q                       transfer, plus the CLines rule (what Analyze uses for
                                              classes other than CLit)
+     site_transfer_fast c q                  = site_transfer c q, with the byte-set classes tabulated
      go_quote : string -> string             model of strconv.Quote / printf %q on byte strings
 
    LANGUAGES (bytes; dq = double quote, bs = backslash)
@@ -272,11 +273,43 @@ Definition transfer (c : cls) (q : lstate) : option (list lstate) :=
   | CUnknown _ => None
   end.
 
+(* Conversion hint only (no logical content): when the type checker compares [transfer c q] with
+   one of the searches below it must unfold [transfer] first.  Two separately reduced copies of a
+   search that is stuck on an abstract state or byte set are exponentially expensive to compare. *)
+Strategy 100 [closure propose_set check_set set_transfer first_states first_rest_check
+              first_rest_transfer lit_transfer].
+
 Definition lines_transfer (q : lstate) : option (list lstate) :=
   match q with QBetween => Some [QBetween] | _ => None end.
 
 Definition site_transfer (c : cls) (q : lstate) : option (list lstate) :=
   match c with CLines => lines_transfer q | _ => transfer c q end.
+
+(* the same function with the four byte-set classes read from tables computed once (an analysis of
+   a real template asks for them thousands of times); ClassesProofs.site_transfer_fast_eq *)
+Definition st_index (q : lstate) : nat :=
+  match q with
+  | QBetween => 0 | QBare => 1 | QBareEsc => 2 | QVar => 3 | QDQ => 4 | QDQEsc => 5
+  | QSQ => 6 | QSQEsc => 7 | QComment => 8 | QNeedSpace => 9 | QErr => 10
+  end.
+
+Definition word_tbl : list (option (list lstate)) :=
+  Eval vm_compute in map (transfer CWord) all_states.
+Definition wordvar_tbl : list (option (list lstate)) :=
+  Eval vm_compute in map (transfer CWordVar) all_states.
+Definition baretok_tbl : list (option (list lstate)) :=
+  Eval vm_compute in map (transfer CBareTok) all_states.
+Definition int_tbl : list (option (list lstate)) :=
+  Eval vm_compute in map (transfer CInt) all_states.
+
+Definition site_transfer_fast (c : cls) (q : lstate) : option (list lstate) :=
+  match c with
+  | CWord => nth (st_index q) word_tbl None
+  | CWordVar => nth (st_index q) wordvar_tbl None
+  | CBareTok => nth (st_index q) baretok_tbl None
+  | CInt => nth (st_index q) int_tbl None
+  | _ => site_transfer c q
+  end.
 
 (* ---------------------------------------------------------------- Go's %q on byte strings *)
 
